@@ -16,7 +16,7 @@ from ..harness import qcall, snapshot, snapshot_diff
 
 ID = "C18"
 LEVEL = "exploration"
-BUDGET = {"quick": 1600, "thorough": 30000}
+BUDGET = {"quick": 1600, "thorough": 450000}
 TECHNIQUE = "property-based testing: captured stdout of the entry points parsed and compared with the header tables; pickle round trip against a fresh reader"
 RULE = ("Hypothesis-generated 2D/3D plotfiles (1-9 fields, odd and even counts, with / without Y(...) species, known "
         "PeleLMeX names and unknown names that are prefixes of each other or contain regex metacharacters, negative / "
